@@ -16,13 +16,13 @@ static uint8_t h_st[CAP];
 #ifdef UNIT_SHIFT
 void harness(void)
 {
-	IN(size_t, in_max); IN(size_t, in_len); IN(size_t, in_off); IN(size_t, in_curr); IN(size_t, in_pos); IN(size_t, in_mlen); IN(ssize_t, in_msg); IN(size_t, in_k);
+	IN(size_t, in_max); IN(size_t, in_len); IN(size_t, in_off); IN(size_t, in_curr); IN(size_t, in_pos); IN(size_t, in_mlen); IN(ssize_t, in_msg); IN(size_t, in_k); IN(uintptr_t, in_ctx);
 	uint8_t in_content[CAP]; dq_t dq; size_t i, drop; uint8_t vk = 0;
 	V_FILL(in_content);
 	V_REQ(in_max >= 1 && in_max <= CAP && in_len <= in_max && in_off < in_max);
 	for (i = 0; i < CAP; i++) h_st[i] = in_content[i];
 	dq.data.base = h_st; dq.data.max = in_max; dq.data.len = in_len; dq.data.off = in_off; dq._dec = 0;
-	dq._state._ctx = 0; dq._state.curr = in_curr; dq._state.data.pos = in_pos; dq._state.data.len = in_mlen; dq._state.data.msg = in_msg;
+	dq._state._ctx = in_ctx; dq._state.curr = in_curr; dq._state.data.pos = in_pos; dq._state.data.len = in_mlen; dq._state.data.msg = in_msg;
 	V_REQ(D_WF(&dq._state, in_len));
 	if (in_k < in_len) vk = QV(&dq.data, in_k);
 	mpt_queue_shift(&dq);
@@ -34,6 +34,11 @@ void harness(void)
 	V_CHECK("shift: input position and message window move by exactly the dropped amount", dq._state.curr == in_curr - drop && dq._state.data.len == in_mlen && dq._state.data.msg == in_msg && IMP(in_pos || in_mlen, dq._state.data.pos == in_pos - drop));
 	V_CHECK("shift: decoder state stays consistent with the queue", D_WF(&dq._state, dq.data.len));
 	V_CHECK("shift: everything in front of the window is released (all consumed input when no window is open)", IMP(!(in_pos || in_mlen), drop == in_curr) && IMP(in_pos || in_mlen, drop == (in_pos < in_curr ? in_pos : in_curr)));
+	/* the in-place decoders write behind the message window and need at least one already consumed byte there while a
+	 * frame is open (decoder context != 0): with no room they report 'incomplete' on every later call */
+	V_CHECK("shift: an open frame keeps room for the in-place decoder (message window open)", IMP(in_ctx != 0 && (in_pos || in_mlen) && in_curr > in_pos + in_mlen, dq._state.curr > dq._state.data.pos + dq._state.data.len));
+	V_CHECK("shift: an open frame keeps room for the in-place decoder (no decoded byte yet)", IMP(in_ctx != 0 && !(in_pos || in_mlen) && in_curr > 0, dq._state.curr > 0));
+	V_CHECK("shift: decoder context untouched", dq._state._ctx == in_ctx);
 	V_COVER("window kept, prefix dropped over the wrap", drop > 0 && in_mlen > 0 && in_off + drop > in_max);
 	V_COVER("everything consumed dropped", drop == in_curr && in_curr > 2 && !in_mlen);
 	V_CANARY();
